@@ -38,12 +38,15 @@ Msgs1 == <<"UA">>
 Seq4 == <<201, 202, 203, 204>>
 Seq10 == <<201, 5002, 203, 64000, 205, 206, 1207, 208, 209, 210>>
 Counts2 == <<301, 302>>
+Counts3 == <<301, 302, 303>>
 Counts4 == <<301, 20302, 303, 304>>
 Msgs2 == <<"UA", "UB">>
 Msgs3 == <<"UA", "UB", "UC">>
 Comps1 == <<"CompA">>
 Comps2 == <<"CompA", "CompB">>
 Comps0 == <<>>
+Pairs0 == <<>>
+Pairs1 == <<220>>
 
 \* C14: the declarable numbers are a solved collision {a, b} vs {c, d} (MC_SchemaHash); plain strings
 PlainOptions(i) == {Opt("STRING", <<>>)}
